@@ -75,23 +75,22 @@ Theorem register_freq_ok :
 Proof. intros. exact (conj (nodup_reg_freq k cols f) (lookup_reg_freq k cols f u)). Qed.
 Print Assumptions register_freq_ok.
 
-(* every view returned by one result is a function of one list of shots: invariant over all
-   operation sequences (any order and flags of samples()/frequencies()/probabilities(), any
-   number of executions of the circuit before or after) in which samples()/frequencies() are
-   called on the single result r0; the shots have the right count and non-zero probability
-   ([shots_ok], from the sampler contract [oracles_ok]) *)
+(* every view returned by a result is a function of one list of shots of that result: invariant
+   over ALL operation sequences (any order and flags of samples()/frequencies()/probabilities()
+   on any result, any number of executions of the circuit before, between or after); the shots
+   have the right count and non-zero probability ([shots_ok], from the sampler contract
+   [oracles_ok]) *)
 Theorem views_consistent :
-  forall cfg r0, cfg_wf cfg -> forall h,
-    hist_wf cfg 0 h = true -> oracles_ok cfg (init cfg) h = true -> single_reader r0 h = true ->
-    standalone cfg h.
-Proof. exact single_reader_standalone. Qed.
+  forall cfg, cfg_wf cfg -> forall h,
+    hist_wf cfg 0 h = true -> oracles_ok cfg (init cfg) h = true -> standalone cfg h.
+Proof. exact all_histories_standalone. Qed.
 Print Assumptions views_consistent.
 
 Example views_consistent_nonvacuous :
   let cfg := mkcfg 3 [[2; 0]; [1]] in
   let h := [Exec [1; 0; 0; 1; 0; 0; 2; 0]%Z 3; Freqs 0 false true [(0, 1); (5, 2)];
             Samples 0 true true [5; 0; 5]; Probs 0 [1; 2]; Freqs 0 true false []; Samples 0 false false []] in
-  hist_wf cfg 0 h = true /\ oracles_ok cfg (init cfg) h = true /\ single_reader 0 h = true /\
+  hist_wf cfg 0 h = true /\ oracles_ok cfg (init cfg) h = true /\
   fst (run cfg (init cfg) h) =
     [ODone; ORegFreqDec [[(0, 1); (2, 2)]; [(0, 1); (1, 2)]];
      ORegSamplesBin [[[true; false]; [false; false]; [true; false]]; [[true]; [false]; [true]]];
